@@ -39,7 +39,7 @@ ENGINES = {
         env={"RUSTFLAGS": "-Zsanitizer=address -Cforce-frame-pointers=yes"},
         run_env={
             "ASAN_OPTIONS": "detect_leaks=1:halt_on_error=1:abort_on_error=0:exitcode=99:allocator_may_return_null=1:max_allocation_size_mb=8192",
-            "LSAN_OPTIONS": "exitcode=98",
+            "LSAN_OPTIONS": "exitcode=98:print_suppressions=0:suppressions=" + os.path.join(VERIF, "driver", "lsan.supp"),
         },
     ),
     "tsan": dict(
